@@ -166,7 +166,7 @@ Qed.
 Lemma leaf_prox_optimal (k : leafR) (w : Rvec) (s : sigR) (x : Rvec) :
   allpos w -> leaf_ok k (length w) -> leaf_sig_ok k (length w) s -> length x = length w ->
   exists p, leaf_prox k w s x = Ok p /\
-            is_proxm (length w) (leaf_val k w) (metric w (sigv (length w) s)) x p.
+            is_proxs (length w) (leaf_val k w) (metric w (sigv (length w) s)) x p.
 Proof.
   intros Pw Hk Hs Hx. destruct (sigv_ok _ _ _ Hs) as [Ls Ps].
   set (n := length w) in *.
@@ -177,7 +177,7 @@ Proof.
   - (* L2^2 *) destruct s as [sg|v|a b]; [| |contradiction]; eexists; (split; [reflexivity|]);
       apply l2sq_leaf_prox; auto.
   - (* constant *) eexists; split; [reflexivity|].
-    apply (is_proxm_ext n (fun _ => Some c)); [reflexivity|]. apply const_leaf_prox; auto with vlen.
+    apply (is_proxs_ext n (fun _ => Some c)); [reflexivity|]. apply const_leaf_prox; auto with vlen.
   - (* box *) destruct Hk as [Hlo Hhi]. eexists; split; [reflexivity|]. apply box_leaf_prox; auto.
   - (* {0} *) eexists; split; [reflexivity|]. apply indzero_leaf_prox; auto.
   - (* unit ball of the max norm *)
@@ -217,10 +217,10 @@ Lemma metric_app n1 (w1 w2 s1 s2 : Rvec) : length w1 = n1 -> length s1 = n1 ->
 Proof. intros; unfold metric; apply (vdiv_app n1); assumption. Qed.
 
 (* ==== every well-formed functional tree: fprox returns the proximal point of fval ==== *)
-Theorem fprox_optimal_all (e : fexprR) : wf e -> forall (s : sigR) (x : Rvec),
+Theorem fprox_proxs_all (e : fexprR) : wf e -> forall (s : sigR) (x : Rvec),
   sig_ok e s -> length x = fdim e ->
   exists p, fprox e s x = Ok p /\
-            is_proxm (fdim e) (fval e) (metric (fweights e) (sig_flat e s)) x p.
+            is_proxs (fdim e) (fval e) (metric (fweights e) (sig_flat e s)) x p.
 Proof.
   induction e; cbn [wf]; intros W sg x Hs Hx.
   - (* leaf *) destruct W as [Pw Hk]. cbn [sig_ok] in Hs. cbn [fprox fval sig_flat fweights]. unfold fdim in *; cbn [fweights] in *.
@@ -246,7 +246,7 @@ Proof.
       apply rule_arg_scaling; auto. apply (metric_len (fdim e)); auto.
   - (* f + c *)
     cbn [sig_ok] in Hs. destruct (IHe W sg x Hs Hx) as (p & Ep & Pp). exists p. split; [exact Ep|].
-    cbn [fval fweights sig_flat]. change (fdim (SSum c e)) with (fdim e). apply is_proxm_add_const. exact Pp.
+    cbn [fval fweights sig_flat]. change (fdim (SSum c e)) with (fdim e). apply is_proxs_add_const. exact Pp.
   - (* translation *)
     destruct (sig_flat_ok (Transl t e) W sg Hs) as [Lf Pf]. cbn [sig_flat] in Lf, Pf.
     destruct W as [Ht W]. cbn [sig_ok] in Hs. change (fdim (Transl t e)) with (fdim e) in *.
@@ -279,8 +279,8 @@ Proof.
         rewrite (vscal_vscal (fdim e)) by auto with vlen. rewrite Hcc. reflexivity. }
       rewrite Ey, Hcc in Pp.
       pose proof (rule_quadratic_perturbation (fdim e) (fval e) (fweights e) sg a u' c x p
-                    Hs Ha eq_refl Lu Hx Pp) as Q.
-      revert Q. apply is_proxm_ext. intros z Hz. numR. unfold winner. f_equal. f_equal.
+                    Hs Ha (fweights_allpos e W) eq_refl Lu Hx Pp) as Q.
+      revert Q. apply is_proxs_ext. intros z Hz. numR. unfold winner. f_equal. f_equal.
       unfold u'. destruct u as [u|]; [reflexivity|]. rewrite (wdot_zero_r (fdim e)) by auto. reflexivity.
   - (* separable sum *)
     destruct (sig_flat_ok (Sep e1 e2) W sg Hs) as [Lf Pf].
@@ -334,6 +334,19 @@ Proof.
   destruct (f p), (f z); cbn [eadd ele] in *; numR; auto.
 Qed.
 
+(* minimality follows from the variational form *)
+Theorem fprox_optimal_all (e : fexprR) : wf e -> forall (s : sigR) (x : Rvec),
+  sig_ok e s -> length x = fdim e ->
+  exists p, fprox e s x = Ok p /\
+            is_proxm (fdim e) (fval e) (metric (fweights e) (sig_flat e s)) x p.
+Proof.
+  intros W s x Hs Hx. destruct (fprox_proxs_all e W s x Hs Hx) as (p & Ep & Pp).
+  exists p. split; [exact Ep|]. destruct (sig_flat_ok e W s Hs) as [L P].
+  apply is_proxs_proxm; auto.
+  - apply (metric_len (fdim e)); auto.
+  - apply (metric_allpos (fdim e)); auto. apply fweights_allpos; assumption.
+Qed.
+
 Theorem fprox_optimal_scalar (e : fexprR) (sigma : R) (x : Rvec) :
   wf e -> 0 < sigma -> length x = fdim e ->
   exists p, fprox e (SScal sigma) x = Ok p /\
@@ -342,4 +355,95 @@ Proof.
   intros W Hs Hx. destruct (fprox_optimal_all e W (SScal sigma) x (sig_ok_scal e W _ Hs) Hx) as (p & Ep & Pp).
   exists p. split; [exact Ep|]. rewrite sig_flat_scal in Pp.
   apply is_proxm_scalar; auto. lra.
+Qed.
+
+(* ================= consequences ================= *)
+(* strict minimality: every other point is worse by at least half its squared distance to p *)
+Theorem proxs_strict n f m x p : length m = n -> length x = n -> is_proxs n f m x p ->
+  forall z, length z = n ->
+    ele (match f p with Some vp => Some (vp + wnormsq m (vsub p x) / 2 + wnormsq m (vsub z p) / 2) | None => None end)
+        (prox_obj f m x z).
+Proof.
+  intros Hm Hx (Hp & vp & Hv & Hs) z Hz. rewrite prox_obj_R, Hv. specialize (Hs z Hz).
+  destruct (f z) as [vz|]; cbn [ele] in *; [|exact I].
+  rewrite (wnormsq_three_point n m z p x) by assumption.
+  assert (Hneg : wdot m (vsub z p) (vsub x p) = - wdot m (vsub z p) (vsub p x)).
+  { rewrite !(wdot_vsub_r' n) by auto with vlen. lra. }
+  lra.
+Qed.
+
+Theorem proxs_unique n f m x p1 p2 : length m = n -> length x = n -> allpos m ->
+  is_proxs n f m x p1 -> is_proxs n f m x p2 -> p1 = p2.
+Proof.
+  intros Hm Hx Pm H1 H2.
+  pose proof (proxs_firmly_nonexpansive n f m x x p1 p2 Hm Hx Hx H1 H2) as Q.
+  destruct H1 as (L1 & _). destruct H2 as (L2 & _).
+  rewrite (vsub_self n x) in Q by assumption. rewrite (wdot_zero_vec_r n) in Q by auto with vlen.
+  apply (vsub_eq_zero n); auto. apply (wnormsq_zero n m); auto with vlen.
+Qed.
+
+(* the minimiser is unique: any point whose objective value is not larger than that of p IS p *)
+Theorem prox_minimiser_unique n f m x p z : length m = n -> length x = n -> allpos m ->
+  is_proxs n f m x p -> length z = n -> ele (prox_obj f m x z) (prox_obj f m x p) -> z = p.
+Proof.
+  intros Hm Hx Pm H Hz Hle. pose proof (proxs_strict n f m x p Hm Hx H z Hz) as S.
+  destruct H as (Hp & vp & Hv & Hs). rewrite !prox_obj_R in *. rewrite Hv in *.
+  destruct (f z) as [vz|]; cbn [ele] in *; [|contradiction].
+  apply (vsub_eq_zero n); auto. apply (wnormsq_zero n m); auto with vlen.
+  pose proof (wnormsq_nonneg m (vsub z p) Pm). lra.
+Qed.
+
+(* ---- trees ---- *)
+Theorem fprox_firmly_nonexpansive (e : fexprR) (s : sigR) (x1 x2 p1 p2 : Rvec) :
+  wf e -> sig_ok e s -> length x1 = fdim e -> length x2 = fdim e ->
+  fprox e s x1 = Ok p1 -> fprox e s x2 = Ok p2 ->
+  let m := metric (fweights e) (sig_flat e s) in
+  wnormsq m (vsub p1 p2) <= wdot m (vsub p1 p2) (vsub x1 x2).
+Proof.
+  intros W Hs H1 H2 E1 E2 m.
+  destruct (fprox_proxs_all e W s x1 Hs H1) as (q1 & F1 & P1).
+  destruct (fprox_proxs_all e W s x2 Hs H2) as (q2 & F2 & P2).
+  rewrite E1 in F1. rewrite E2 in F2. injection F1 as <-. injection F2 as <-.
+  destruct (sig_flat_ok e W s Hs) as [L P].
+  apply (proxs_firmly_nonexpansive (fdim e) (fval e)); auto. apply (metric_len (fdim e)); auto.
+Qed.
+
+Theorem fprox_firmly_nonexpansive_scalar (e : fexprR) (sigma : R) (x1 x2 p1 p2 : Rvec) :
+  wf e -> 0 < sigma -> length x1 = fdim e -> length x2 = fdim e ->
+  fprox e (SScal sigma) x1 = Ok p1 -> fprox e (SScal sigma) x2 = Ok p2 ->
+  wnormsq (fweights e) (vsub p1 p2) <= wdot (fweights e) (vsub p1 p2) (vsub x1 x2).
+Proof.
+  intros W Hs H1 H2 E1 E2.
+  pose proof (fprox_firmly_nonexpansive e (SScal sigma) x1 x2 p1 p2 W (sig_ok_scal e W _ Hs) H1 H2 E1 E2) as Q.
+  cbv zeta in Q. rewrite sig_flat_scal in Q.
+  destruct (fprox_proxs_all e W _ x1 (sig_ok_scal e W _ Hs) H1) as (q1 & F1 & (L1 & _)).
+  destruct (fprox_proxs_all e W _ x2 (sig_ok_scal e W _ Hs) H2) as (q2 & F2 & (L2 & _)).
+  rewrite E1 in F1. rewrite E2 in F2. injection F1 as <-. injection F2 as <-.
+  unfold wnormsq in *. rewrite !(metric_scalar_dot (fdim e)) in Q by (auto with vlen; lra).
+  unfold Rdiv in Q. assert (Hi : 0 < / sigma) by (apply Rinv_0_lt_compat; assumption).
+  apply (Rmult_le_reg_r (/ sigma)); assumption.
+Qed.
+
+(* indicator functionals: the proximal point lies in the set, and the proximal is idempotent *)
+Theorem fprox_indicator (e : fexprR) (s : sigR) (c : R) (x p : Rvec) :
+  wf e -> sig_ok e s -> length x = fdim e ->
+  (forall z, length z = fdim e -> fval e z = None \/ fval e z = Some c) ->
+  fprox e s x = Ok p ->
+  fval e p = Some c /\ fprox e s p = Ok p.
+Proof.
+  intros W Hs Hx Hind E.
+  destruct (fprox_proxs_all e W s x Hs Hx) as (q & F & P). rewrite E in F. injection F as <-.
+  destruct (sig_flat_ok e W s Hs) as [L Pp].
+  assert (Hm : length (metric (fweights e) (sig_flat e s)) = fdim e) by (apply (metric_len (fdim e)); auto).
+  assert (Pm : allpos (metric (fweights e) (sig_flat e s))).
+  { apply (metric_allpos (fdim e)); auto. apply fweights_allpos; assumption. }
+  destruct P as (Lp & vp & Hv & Hsub).
+  assert (Hc : vp = c) by (destruct (Hind p Lp) as [N|S]; congruence). subst vp.
+  split; [assumption|].
+  destruct (fprox_proxs_all e W s p Hs Lp) as (q & F & Q).
+  assert (Hpp : is_proxs (fdim e) (fval e) (metric (fweights e) (sig_flat e s)) p p).
+  { split; [assumption|]. exists c. split; [assumption|]. intros z Hz.
+    rewrite (vsub_self (fdim e)) by assumption. rewrite (wdot_zero_vec_r (fdim e)) by auto with vlen.
+    destruct (Hind z Hz) as [N|S]; rewrite ?N, ?S; cbn [ele]; [exact I | lra]. }
+  rewrite F. f_equal. apply (proxs_unique (fdim e) (fval e) (metric (fweights e) (sig_flat e s)) p); auto.
 Qed.
